@@ -560,12 +560,50 @@ def gen_case(rng, kind, tier, force=None):
         vals['kopt'] = [rng.choice(['2', '3/2', '-1'])]
     opts['both_modes'] = rng.random() < 0.35
     opts['mode'] = rng.choice(['fwd', 'rev'])
+    case_extra = {}
+    if force.get('two_point'):
+        # the first linearization (where sparsity / coloring are sampled, once) happens at a point
+        # where some inputs / states are exactly 0.0; every later one at the generic point `vals`.
+        # A coupling term state * g(inputs) (resp. input * g(other input)) makes partials that are
+        # exactly zero at the first point and not at the second.
+        opts['solve_nl'] = False
+        dyn = [a for a in args if a['role'] != 'opt']
+        for r in rets:
+            if implicit:
+                own = ['var', r['name']]
+                oth = rng.choice([a for a in dyn if a['role'] == 'in'])
+            else:
+                cands = [a for a in dyn if tuple(a['shape']) == tuple(r['shape'])]
+                if not cands:
+                    continue
+                a0 = rng.choice(cands)
+                own = ['var', a0['name']]
+                rest = [a for a in dyn if a['name'] != a0['name']]
+                oth = rng.choice(rest or dyn)
+            sc = ['var', oth['name']] if not oth['shape'] else \
+                rng.choice([['sum', ['var', oth['name']]],
+                            ['idx', ['var', oth['name']], [rng.randrange(n) for n in oth['shape']]]])
+            r['expr'] = ['add', r['expr'], ['mul', ['lit', rng.choice(['1/2', '1/4', '-1/2'])],
+                                           ['mul', own, sc]]]
+        pattern = rng.choice(['states', 'states', 'all', 'some'])
+        v0 = {}
+        for a in dyn:
+            v = list(vals[a['name']])
+            zero_all = (pattern == 'all') or (pattern == 'states' and a['role'] == 'state') or \
+                (pattern == 'states' and not implicit and rng.random() < 0.6)
+            for i in range(len(v)):
+                if zero_all or (pattern == 'some' and rng.random() < 0.5):
+                    v[i] = '0/1'
+            v0[a['name']] = v
+        case_extra['vals0'] = v0
     if not opts.get('named', True) or kind == 'jic':
         # a bare name in a return statement is taken as the *name* of the return value
         for r in rets:
             if r['expr'][0] == 'var':
                 r['expr'] = ['mul', ['lit', '1'], r['expr']]
-    return {'kind': kind, 'args': args, 'temps': temps, 'rets': rets, 'vals': vals, 'opts': opts}
+    case = {'kind': kind, 'args': args, 'temps': temps, 'rets': rets, 'vals': vals, 'opts': opts}
+    case.update(case_extra)
+    return case
 
 
 # ================================================================================================
@@ -696,8 +734,19 @@ def structural_deps(case):
     return out
 
 
+def first_point(case):
+    """The case evaluated at its first linearization point (two-point cases)."""
+    v = dict(case['vals'])
+    v.update(case['vals0'])
+    c0 = dict(case, vals=v)
+    del c0['vals0']
+    return c0
+
+
 def screen(case):
     """Reject badly conditioned draws; returns the oracle data."""
+    if 'vals0' in case:
+        screen(first_point(case))
     vals, jac = oracle_eval(case)
     nv = numpy_eval(case)
     for r in case['rets']:
@@ -982,6 +1031,33 @@ def run_real(case):
                 p.model.linear_solver = om.DirectSolver(assemble_jac=(mi == 0 and not o.get('mf')))
             stage = 'setup'
             p.setup(mode=mode, force_alloc_complex=(o['method'] == 'cs'))
+            if 'vals0' in case:
+                # first linearization (sparsity / coloring are sampled here, once) at the first point
+                stage = 'first_point'
+                arrs0 = arg_arrays(first_point(case))
+                for a in ins:
+                    p.set_val('ivc.' + a['name'], np.asarray(arrs0[a['name']], dtype=float))
+                if implicit:
+                    for r in case['rets']:
+                        p.set_val('c.' + r['name'], np.asarray(arrs0[r['name']], dtype=float))
+                p.run_model()
+                if implicit:
+                    for r in case['rets']:
+                        p.set_val('c.' + r['name'], np.asarray(arrs0[r['name']], dtype=float))
+                    p.model.run_apply_nonlinear()
+                of0 = ['c.' + r['name'] for r in case['rets']]
+                wrt0 = ['ivc.' + a['name'] for a in ins]
+                J0 = p.compute_totals(of=of0, wrt=wrt0)
+                res['totals0_' + mode] = {'%s|%s' % (a.split('.')[1], b.split('.')[1]):
+                                          _dense(v).tolist() for (a, b), v in J0.items()}
+                if mi == 0 and implicit:
+                    cp0 = p.check_partials(out_stream=None, compact_print=True)
+                    res['partials0'] = {'%s|%s' % k: _dense(d['J_fwd']).tolist()
+                                        for k, d in cp0['c'].items() if 'J_fwd' in d}
+                # ... and on to the generic point
+                for a in ins:
+                    p.set_val('ivc.' + a['name'], np.asarray(arrs[a['name']], dtype=float))
+                stage = 'setup'
             if implicit:
                 for r in case['rets']:
                     p.set_val('c.' + r['name'], np.asarray(arrs[r['name']], dtype=float))
@@ -1112,9 +1188,29 @@ def judge(case, impl):
     if 'error' in impl:
         return {'what': 'component raised %s during %s' % (impl['error'], impl['stage']),
                 'msg': impl.get('msg'), 'class': 'raise'}
-    exp = expected(case)
     m = case['opts']['method']
     tol = TOL_FD if m == 'fd' else TOL
+    if 'vals0' in case:
+        exp0 = expected(first_point(case))
+        for tk in ('totals0_fwd', 'totals0_rev'):
+            for (of, wrt), J in sorted(exp0['totals'].items()):
+                if tk not in impl:
+                    continue
+                got = impl[tk].get('%s|%s' % (of, wrt))
+                ok, why = (False, 'missing') if got is None else _close(
+                    got, J, tol * (10 if case['kind'] in ('ifc', 'jic') else 1))
+                if not ok:
+                    return {'what': '%s (%s, %s) at the first linearization point differs from the exact '
+                            'total derivative' % (tk, of, wrt), 'why': why, 'class': 'total0'}
+        for (of, wrt), J in sorted(exp0['partials'].items()):
+            got = impl.get('partials0', {}).get('%s|%s' % (of, wrt))
+            if got is None:
+                continue
+            ok, why = _close(got, J, tol)
+            if not ok:
+                return {'what': 'partial (%s, %s) at the first linearization point differs from the exact '
+                        'derivative' % (of, wrt), 'why': why, 'class': 'partial0'}
+    exp = expected(case)
     for r in case['rets']:
         n = r['name']
         ok, why = _close(impl['out'][n], np.asarray(exp['out'][n]).ravel(), TOL)
@@ -1362,7 +1458,7 @@ class C34(Property):
         return None
 
     def cases(self, rng, tier):
-        n = 90 if tier == 'quick' else 1500
+        n = 84 if tier == 'quick' else 1500
         out = []
         forced = [
             ('ifc', {'permute_states': True}),
@@ -1375,6 +1471,20 @@ class C34(Property):
                      'permute_states': False}),
             ('ifc', {'opts': {'method': 'jax', 'coloring': True}, 'permute_states': False}),
         ]
+        # first linearization at a point with exact zeros, second at a generic point: automatic
+        # sparsity (no declared partials) and colorings must not lose the entries that vanish there
+        two = [('jic', {'decl': 'infer', 'coloring': False}), ('jic', {'decl': 'star', 'coloring': True}),
+               ('jic', {'decl': 'infer', 'coloring': True}), ('jic', {'decl': 'infer', 'coloring': False}),
+               ('jec', {'decl': 'infer', 'coloring': False}), ('jec', {'decl': 'star', 'coloring': True}),
+               ('jic', {'decl': 'pairs', 'coloring': True}), ('ifc', {'method': 'jax', 'coloring': True}),
+               ('efc', {'method': 'jax', 'coloring': True, 'decl': 'star'}),
+               ('jic', {'decl': 'infer', 'coloring': True})]
+        for _ in range(1 if tier == 'quick' else 12):
+            for kind, o2 in two:
+                o2 = dict(o2, mf=False) if kind in ('jec', 'jic') else dict(o2)
+                c = self.draw(rng, kind, tier, {'two_point': True, 'opts': o2, 'permute_states': False})
+                if c is not None:
+                    out.append(c)
         reps = 1 if tier == 'quick' else 12
         for _ in range(reps):
             for kind, force in forced:
@@ -1411,7 +1521,7 @@ class C34(Property):
                 'direction': best_direction(case),
                 'mode_mismatch': any(m != best_direction(case) for m in
                                      (['fwd', 'rev'] if o.get('both_modes') else [o.get('mode', 'fwd')])),
-                'T_on_expr': has_T_on_expr(case),
+                'T_on_expr': has_T_on_expr(case), 'two_point': 'vals0' in case,
                 'class': failure.get('class'), 'error': impl.get('error'),
                 'msg_key': msg_key(impl.get('msg')) if 'error' in impl else None}
 
@@ -1440,6 +1550,8 @@ class C34(Property):
             b.append('option_arg')
         if case['temps']:
             b.append('shared_temporary')
+        if 'vals0' in case:
+            b.append('two_point(first linearization at zeros)')
         if states_permuted(case):
             b.append('states_out_of_order')
         if 'error' not in impl:
